@@ -21,6 +21,7 @@
   `grammar/pigeon.peg` (`pv/front_model.py`).
 -/
 import PigeonVerif.Proofs.ClassRoundTrip
+import PigeonVerif.Proofs.ClassRoundTrip2
 
 namespace PV
 namespace ClassParse
@@ -36,6 +37,22 @@ theorem C03_class_parse_roundtrip (ic inv : Bool) (ns : List (List Rune)) (cs : 
     parse (spell ic inv ns cs rs) =
       some { ignoreCase := ic, inverted := inv, chars := cs, ranges := flat rs, classes := ns } :=
   parse_spell ic inv ns cs rs hn hc hr
+
+/-- **C03 — class round trip, members in any order.** For every SEQUENCE of members — Unicode class names, single characters,
+    ranges, interleaved in any way, as a user writes a class and as a printer of the AST writes it — with valid code points and
+    well-formed names, and both flags: the model of `(*ast.CharClassMatcher).parse` reads the spelling `spell2` (characters and
+    range bounds as `\UXXXXXXXX`, the range operator plain, classes as `\p{Name}`) back as the characters in their order, the ranges
+    in their order and the class names in their order. Needs the repairs of D3 (a `-` among the members) and of D36 (a class
+    between two members no longer turns the `-` behind it into the range operator). -/
+theorem C03_class_parse_roundtrip_any_order (ic inv : Bool) (its : List Item) (hok : ∀ it ∈ its, it.ok) :
+    parse (spell2 ic inv its) =
+      some { ignoreCase := ic, inverted := inv, chars := itemChars its, ranges := itemRanges its, classes := itemNames its } :=
+  parse_spell2 ic inv its hok
+
+/-- an instance evaluated by the kernel: `[0\p{L}-9a-c\p{Nd}_]i` as a member sequence (`0`, L, `-`, `9`, a-c, Nd, `_`) -/
+example : parse (spell2 true false [.chr 48, .cls [76], .chr 45, .chr 57, .rng 97 99, .cls [78, 100], .chr 95]) =
+    some { ignoreCase := true, inverted := false, chars := [48, 45, 57, 95], ranges := [97, 99], classes := [[76], [78, 100]] } := by
+  decide
 
 /-- finding D3, repaired (`fix:` commit in /repo): the class `a`, `-`, `c` - three single characters - spelled with every
     character escaped is read back as three characters. Before the repair it was read as the RANGE a-c: the decoded `-` was
